@@ -403,8 +403,10 @@ def write_evidence(pid, tier, seed, spec, all_results, metas, wall, violations, 
         funcs.update(r.get("repo_functions", []))
         symex += r.get("symex_s") or 0.0
         solver += r.get("solver_s") or 0.0
-        if r.get("status") == "verified" and (r.get("checks_passed", 0) or 0) > 0:
+        if r.get("status") in ("verified", "known_finding") and (r.get("checks_passed", 0) or 0) > 0:
             verified += 1
+        elif r.get("status") == "failed" and r.get("replayed_dev"):
+            verified += 1  # decided: a violation reproduced natively
     samples = []
     for h in harnesses[:12]:
         samples.append({
